@@ -83,11 +83,16 @@ def _norm_terms(prog, fn, res, key, operand_name, amount_check):
         isinstance(st.value.func, ast.Attribute) and \
         st.value.func.attr == 'append':
       v = st.value.args[0]
+    elif isinstance(st, ast.Assign) and len(st.targets) == 1 and isinstance(
+        st.targets[0], ast.Name) and isinstance(st.value, ast.BinOp) and \
+        isinstance(st.value.op, ast.Mult):
+      # accumulated directly: result = amount * reduce_sum(...)
+      v = st.value
     if v is None:
       continue
     calls = [c for c in ast.walk(v) if isinstance(c, ast.Call) and
              prog.ext_name(fn.module, c.func) == 'tf.reduce_sum']
-    if not calls:
+    if len(calls) != 1:
       continue
     rs = calls[0]
     inner = rs.args[0]
@@ -112,7 +117,7 @@ def _norm_terms(prog, fn, res, key, operand_name, amount_check):
       elif e is not rs:
         factors.append(e)
     collect(v)
-    found[which] = (st, full, guard_ok, factors)
+    found.setdefault(which, []).append((st, full, guard_ok, factors))
   for which, fnname in (('l1', 'abs'), ('l2', 'square')):
     k = '%s|%s-term' % (key, which)
     if which not in found:
@@ -120,16 +125,50 @@ def _norm_terms(prog, fn, res, key, operand_name, amount_check):
                     'no term %s * reduce_sum(%s(%s)) found' % (
                         which, fnname, operand_name))
       continue
-    st, full, guard_ok, factors = found[which]
     probs = []
-    if not full:
-      probs.append('reduce_sum is not over all entries')
-    if not guard_ok:
-      probs.append('term is not guarded by `if %s`' % which)
-    probs += amount_check(which, factors)
-    res.check(not probs, 'L6', k, fn.loc(st),
+    for st, full, guard_ok, factors in found[which]:
+      if not full:
+        probs.append('reduce_sum is not over all entries')
+      if not guard_ok:
+        probs.append('term is not guarded by `if %s`' % which)
+      probs += amount_check(which, factors)
+    res.check(not probs, 'L6', k, fn.loc(found[which][-1][0]),
               '%s-amount * reduce_sum(%s(%s)) over all entries' % (
                   which, fnname, operand_name), '; '.join(probs))
+  return found
+
+
+def _accumulated_directly(fn, found):
+  """True when every term statement stores into one local R that is returned,
+  a plain `R = term` occurs only as the first term statement or under
+  `if R is None`, and an `R += term` that is not the first term statement is
+  not itself under `R is None` (so no term is overwritten or lost); None when
+  the terms are not accumulated in this way."""
+  sts = sorted({id(t[0]): t[0] for ts in found.values() for t in ts}.values(),
+               key=lambda s: (s.lineno, s.col_offset))
+  if not sts or not all(isinstance(s, (ast.Assign, ast.AugAssign))
+                        for s in sts):
+    return None
+  names = {dotted(s.targets[0] if isinstance(s, ast.Assign) else s.target)
+           for s in sts}
+  if len(names) != 1:
+    return None
+  r = names.pop()
+  if not any(isinstance(s, ast.Return) and s.value is not None and
+             dotted(s.value) == r for s in ast.walk(fn.node)):
+    return None
+  first_which = None
+  for i, s in enumerate(sts):
+    gs = structural_guards(fn.node, s) or []
+    none_guard = any(pol and norm_text(t).replace(' ', '') == '%sisNone' % r
+                     for t, pol in gs)
+    if isinstance(s, ast.Assign):
+      if i and not none_guard:
+        return False
+    elif none_guard:
+      return False
+  # R starts as None or is first bound by the first term statement
+  return True
 
 
 def _units_axis_amount(prog, res, fn, key):
@@ -403,9 +442,9 @@ def _pwl(prog, res, cls_name, order):
     txt = [norm_text(f).replace(' ', '') for f in factors]
     return [] if txt == ['self.%s' % which] else [
         'amount is %s, expected self.%s' % (txt, which)]
-  _norm_terms(prog, fn, res, key, final_name, amount)
+  found = _norm_terms(prog, fn, res, key, final_name, amount)
   # the result is the sum of the collected terms
-  ok = any(isinstance(st, ast.Assign) and norm_text(st.value) == 'losses[0]'
+  ok = _accumulated_directly(fn, found) or any(isinstance(st, ast.Assign) and norm_text(st.value) == 'losses[0]'
            for st in ast.walk(fn.node)) and any(
                isinstance(st, ast.AugAssign) and isinstance(st.op, ast.Add)
                and norm_text(st.value) == 'losses[1]'
